@@ -14,6 +14,7 @@ import (
 	"path/filepath"
 	"sort"
 	"strings"
+	"sync"
 	"sync/atomic"
 	"time"
 
@@ -72,6 +73,7 @@ type inst struct {
 	dir   string
 	walf  wal.Factory
 	lc    server.LeaderController
+	oc    *openCount
 	term  int64
 	// model
 	recs map[string]mrec
@@ -96,6 +98,87 @@ func (nullRPC) Truncate(string, *proto.TruncateRequest) (*proto.TruncateResponse
 	return nil, errNoFollowers
 }
 
+// The leader's List goroutines (used by session close and by the session manager's
+// Initialize) signal completion to the caller *before* they close their engine iterator.
+// The factory below counts open engine iterators so that an instance is only closed once
+// they are all released (condition variable, no sleeping). Same device as h/c15.
+
+type openCount struct {
+	mu sync.Mutex
+	c  *sync.Cond
+	n  int
+}
+
+func newOpenCount() *openCount { o := &openCount{}; o.c = sync.NewCond(&o.mu); return o }
+func (o *openCount) inc()      { o.mu.Lock(); o.n++; o.mu.Unlock() }
+func (o *openCount) dec()      { o.mu.Lock(); o.n--; o.c.Broadcast(); o.mu.Unlock() }
+func (o *openCount) wait() {
+	o.mu.Lock()
+	for o.n > 0 {
+		o.c.Wait()
+	}
+	o.mu.Unlock()
+}
+
+type countFactory struct {
+	*oxh.CapFactory
+	oc *openCount
+}
+
+func (f *countFactory) NewKV(ns string, shardId int64) (kv.KV, error) {
+	k, err := f.CapFactory.NewKV(ns, shardId)
+	if err != nil {
+		return nil, err
+	}
+	return &countKV{KV: k, oc: f.oc}, nil
+}
+
+type countKV struct {
+	kv.KV
+	oc *openCount
+}
+
+type countKeyIt struct {
+	kv.KeyIterator
+	oc *openCount
+}
+
+func (i *countKeyIt) Close() error { err := i.KeyIterator.Close(); i.oc.dec(); return err }
+
+type countKVIt struct {
+	kv.KeyValueIterator
+	oc *openCount
+}
+
+func (i *countKVIt) Close() error { err := i.KeyValueIterator.Close(); i.oc.dec(); return err }
+
+func (k *countKV) KeyRangeScan(l, u string) (kv.KeyIterator, error) {
+	it, err := k.KV.KeyRangeScan(l, u)
+	if err != nil {
+		return nil, err
+	}
+	k.oc.inc()
+	return &countKeyIt{it, k.oc}, nil
+}
+
+func (k *countKV) KeyIterator() (kv.KeyIterator, error) {
+	it, err := k.KV.KeyIterator()
+	if err != nil {
+		return nil, err
+	}
+	k.oc.inc()
+	return &countKeyIt{it, k.oc}, nil
+}
+
+func (k *countKV) RangeScan(l, u string) (kv.KeyValueIterator, error) {
+	it, err := k.KV.RangeScan(l, u)
+	if err != nil {
+		return nil, err
+	}
+	k.oc.inc()
+	return &countKVIt{it, k.oc}, nil
+}
+
 var (
 	scratch    string
 	dirCounter atomic.Int64
@@ -115,8 +198,9 @@ func (in *inst) elect() error {
 
 func newInst(exact bool, worker int) *inst {
 	in := &inst{exact: exact, dir: filepath.Join(scratch, fmt.Sprintf("w%d-%d", worker, dirCounter.Add(1))), recs: map[string]mrec{}}
+	in.oc = newOpenCount()
 	in.walf = wal.NewWalFactory(&wal.FactoryOptions{BaseWalDir: in.dir, Retention: time.Hour, SegmentSize: 16 * 1024, SyncData: false})
-	lc, err := server.NewLeaderController(server.Config{NotificationsRetentionTime: time.Hour}, "ns", shard, nullRPC{}, in.walf, oxh.NewMemFactory())
+	lc, err := server.NewLeaderController(server.Config{NotificationsRetentionTime: time.Hour}, "ns", shard, nullRPC{}, in.walf, &countFactory{oxh.NewMemFactory(), in.oc})
 	if err != nil {
 		panic(err)
 	}
@@ -129,6 +213,7 @@ func newInst(exact bool, worker int) *inst {
 
 func (in *inst) Close() {
 	if in.lc != nil {
+		in.oc.wait()
 		_ = in.lc.Close()
 	}
 	_ = in.walf.Close()
